@@ -1594,6 +1594,18 @@ func ruleReaderRearmed(c *Checker, fn *ssa.Function) {
 		c.fail("GBNHS-5", name+"|shape", fn.Pos(), fmt.Sprintf("expected blocking waits on the local packet channel and re-arm sends on the local token channel, found %d / %d", len(waits), len(rearm)))
 		return
 	}
+	// re-arming never waits: when the reader has not yet consumed the previous token (it is still
+	// blocked in the transport read after a timeout) the one-slot token channel is full, and a
+	// blocking send would stop the handshake for good
+	k := 0
+	for in := range rearm {
+		sel := in.(*ssa.Select)
+		k++
+		_ = k
+		c.decide(!sel.Blocking, "GBNHS-5", fmt.Sprintf("%s|re-arm at %s is non-blocking", name, fnName(sel.Parent())), instrPos(sel),
+			"the send on the token channel sits in a select with a default case",
+			"the handshake can block while re-arming the reader (select without default): after two timeouts in a row the token channel is still full and the handshake never continues")
+	}
 	avoid := func(in ssa.Instruction) bool { return rearm[in] }
 	for i, wt := range waits {
 		c.decide(!pathFromEntry(fn, wt.sel, avoid), "GBNHS-5", fmt.Sprintf("%s|wait-%d|armed from entry", name, i+1), instrPos(wt.sel),
